@@ -174,7 +174,10 @@ def swFlip (s : St) (i : Nat) (f : FCfg) : St :=
     | none => coilOn s1 f.main
   else s
 
-/-- `enable()` of either device class (after the fixes: a refused rule leaves the device disabled, nothing written) -/
+/-- `enable()` of either device class (after the fixes: a refused rule leaves the device disabled, nothing written).
+The manager's timed EOS handler is registered with the switch controller: when the EOS switch is already closed it is
+scheduled for the rest of the debounce time, and not at all when the switch has been closed for longer than that
+(`add_switch_handler_obj`) - the manager then waits for the next EOS cycle. -/
 def enableDev (c : Cfg) (s : St) (i : Nat) : St :=
   let d := c.dev i
   let ds := s.devs i
@@ -184,7 +187,8 @@ def enableDev (c : Cfg) (s : St) (i : Nat) : St :=
     match d.kind with
     | .flipper f =>
       upd s1 i { ds with enabled := true, button := false, eosLong := false, repOn := false,
-                         eosDue := if hasManager f && ds.eosOn && f.eosMs != 0 then some (ds.eosSince + f.eosMs) else none }
+                         eosDue := if hasManager f && ds.eosOn && f.eosMs != 0 && decide (s.now < ds.eosSince + f.eosMs)
+                                   then some (ds.eosSince + f.eosMs) else none }
     | .autofire _ => upd s1 i { ds with enabled := true }
   else { s with refused := s.refused ++ [i] }
 
@@ -351,7 +355,9 @@ def b2s (b : Bool) : String := if b then "1" else "0"
 
 def showDev (now : Nat) (d : Dev) (ds : DSt) : String :=
   match d.kind with
-  | .flipper _ => s!"F{b2s ds.enabled}{b2s ds.swFlipped}/{showOpt now ds.relDue}"
+  | .flipper f =>
+    let mgr := if ds.enabled && hasManager f then s!"{b2s ds.button}{b2s ds.eosLong}{b2s ds.repOn}/{showOpt now ds.eosDue}" else "-/-"
+    s!"F{b2s ds.enabled}{b2s ds.swFlipped}/{showOpt now ds.relDue}/{mgr}"
   | .autofire _ => s!"A{b2s ds.enabled}{b2s ds.searching}/{showOpt now ds.reDue}/{showOpt now ds.searchDue}/{ds.hits.length}"
 
 def showState (d : DrvSt) : String :=
